@@ -45,9 +45,29 @@ def run(tier, seed, replay_rows=None):
     return ck.finish()
 
 
+def _accepts(cfg, f, n):
+    """Run Trace_TriggerPool on file f (n traces). Returns (TLCResult, accepted set, furthest stuck position per trace)."""
+    import re
+    res = vlib.run_tlc("Trace_TriggerPool", cfg, workers=4, timeout=900, env={"TRACE_FILE": f})
+    if res.violated or res.error or res.timed_out or not res.ok:
+        if res.violated in ("NoOverCount", "MutexOK"):
+            return res, None, {}
+        raise vlib.MachineryError("Trace_TriggerPool did not complete: %s\n%s" % (res.summary(), res.output[-2000:]))
+    mi = re.search(r"Finished computing initial states: (\d+) distinct state", res.output)
+    if not mi or int(mi.group(1)) != n:
+        raise vlib.MachineryError("Trace_TriggerPool: %d traces but %s initial states" % (n, mi.group(1) if mi else "?"))
+    acc = {int(m.group(1)) for m in re.finditer(r'<<"ACCEPTED", (\d+)>>', res.output)}
+    stuck = {}
+    for m in re.finditer(r'<<"STUCK", (\d+), (\d+)>>', res.output):
+        k, pos = int(m.group(1)), int(m.group(2))
+        stuck[k] = max(stuck.get(k, 0), pos)
+    return res, acc, stuck
+
+
 def spec_grain(ck, rows):
     """Trace validation against TriggerPool.tla's OWN actions: every arrival of a goroutine at a yield point must be
-    reachable by steps of that process in the specification; the final ledger must equal the real statistics."""
+    explained by steps of that process in the specification (acceptance is existential over the interleavings the
+    log leaves open); the final ledger must equal the real statistics."""
     import copy
     import os
     by = {}
@@ -60,15 +80,21 @@ def spec_grain(ck, rows):
                 continue
             f = os.path.join(d, "tp_%d.ndjson" % k)
             vlib.write_ndjson(f, [dict(workers=r["workers"], maxiter=r["maxiter"], arr=r["arr"]) for r in lst])
-            res, bad = vlib.validate_rows("Trace_TriggerPool", "Trace_TriggerPool_%d.cfg" % k, f, var="tr", workers=4)
+            res, acc, stuck = _accepts("Trace_TriggerPool_%d.cfg" % k, f, len(lst))
             ck.add_tlc("Trace_TriggerPool_%d.cfg" % k, res)
             ck.traces += len(lst)
-            for b in bad:
+            if acc is None:
+                ck.observe("pool-schedule-breaks-a-TriggerPool-invariant", "invariant %s violated while following a real schedule" % res.violated,
+                           dict(rows=lst[:3]))
+                continue
+            for b in range(1, len(lst) + 1):
+                if b in acc:
+                    continue
                 t = lst[b - 1]
-                pos = vlib.last_index(res.output, b, var_tr="tr")
+                pos = stuck.get(b, 0)
                 ck.observe("pool-schedule-not-a-behaviour-of-TriggerPool",
-                           "the real pool did something TriggerPool.tla does not allow: %s; rejected at arrival %s: %s" % (
-                               t["cfg"]["args"][:300], pos, json.dumps(t["arr"][max(0, (pos or 0) - 6):(pos or 0) + 2])),
+                           "the real pool did something TriggerPool.tla does not allow: %s; no specification step explains arrival %s: %s" % (
+                               t["cfg"]["args"][:300], pos + 1, json.dumps(t["arr"][max(0, pos - 6):pos + 2])),
                            dict(rows=[t]))
             # binding self-test: a ledger that is off by one must be rejected
             muts = []
@@ -78,10 +104,10 @@ def spec_grain(ck, rows):
                 muts.append(m)
             f2 = os.path.join(d, "mut_%d.ndjson" % k)
             vlib.write_ndjson(f2, muts)
-            r2, bad2 = vlib.validate_rows("Trace_TriggerPool", "Trace_TriggerPool_%d.cfg" % k, f2, var="tr", workers=2)
-            if len(bad2) != len(muts):
-                raise vlib.MachineryError("Trace_TriggerPool self-test: %d corrupted traces, %d rejected" % (len(muts), len(bad2)))
-            ck.notes["trace_triggerpool_selftest_rejected"] = ck.notes.get("trace_triggerpool_selftest_rejected", 0) + len(bad2)
+            r2, acc2, _ = _accepts("Trace_TriggerPool_%d.cfg" % k, f2, len(muts))
+            if acc2:
+                raise vlib.MachineryError("Trace_TriggerPool self-test: corrupted traces %s were accepted" % sorted(acc2))
+            ck.notes["trace_triggerpool_selftest_rejected"] = ck.notes.get("trace_triggerpool_selftest_rejected", 0) + len(muts)
 
 
 def replay(path, seed):
